@@ -10,6 +10,13 @@ import SF.Lemmas.MyRsi
 import SF.Lemmas.Hln
 import SF.Lemmas.Cog
 import SF.Expr
+import SF.Lemmas.Roc
+import SF.Lemmas.Bent
+import SF.Lemmas.Alma
+import SF.Lemmas.Net
+import SF.Lemmas.Lagf
+import SF.Lemmas.Roof
+import SF.Lemmas.LagRsi
 /-
   C15 — No panic: every constructed view accepts every finite in-domain stream.
 
@@ -145,6 +152,40 @@ theorem pfe_ctor (N : Nat) (ma : View β) : (pfeCore (α := β) N ma = .error .a
 end ctor
 
 /-! ### chains -/
+/-! ### cores characterised by a total batch function: Roc, BinaryEntropy, Alma, NET, LaguerreFilter, Roofing, LaguerreRSI -/
+open SF
+
+/-- a core whose every run-then-`last()` is characterised by a total batch function cannot panic -/
+theorem noPanic_of_outAfter (B : Core α) (spec : List α → Option α) (h : ∀ xs, B.outAfter xs = .ok (spec xs)) :
+    B.NoPanic := by
+  intro ys
+  have := h ys
+  unfold Core.outAfter at this
+  cases hr : B.run B.init ys with
+  | error e => rw [hr] at this; simp [bind, Except.bind] at this
+  | ok s =>
+    rw [hr] at this
+    exact ⟨s, rfl, _, this⟩
+
+section
+variable [Transc α]
+theorem roc_noPanic (N : Nat) (hN : 0 < N) : (rocCore (α := α) N).NoPanic :=
+  noPanic_of_outAfter _ _ (Roc.outAfter_eq N hN)
+theorem entropy_noPanic (N : Nat) (hN : 0 < N) : (bentCore (α := α) N).NoPanic :=
+  noPanic_of_outAfter _ _ (Bent.outAfter_eq N hN)
+theorem alma_noPanic (N : Nat) (hN : 0 < N) (sigma offset : α) : (almaCore (α := α) N sigma offset).NoPanic :=
+  noPanic_of_outAfter _ _ (Alma.outAfter_eq N hN sigma offset)
+theorem laguerreFilter_noPanic (g : α) : (lagfCore (α := α) g).NoPanic :=
+  noPanic_of_outAfter _ _ (Lagf.outAfter_eq g)
+/-- RoofingFilter: the unchecked core never panics for any N; the constructor rejects N < 2 (`roofing_ctor`) -/
+theorem roofing_noPanic (N M' : Nat) (hM : 0 < M') : (roofCoreU (α := α) N M').NoPanic :=
+  noPanic_of_outAfter _ _ (Roof.outAfter_eq N M' hM)
+end
+theorem net_noPanic (N : Nat) (hN : 0 < N) : (netCore (α := α) N).NoPanic :=
+  noPanic_of_outAfter _ _ (Net.outAfter_eq N hN)
+theorem laguerreRsi_noPanic (N : Nat) : (lagRsiCore (α := α) N).NoPanic :=
+  noPanic_of_outAfter _ _ (LagRsi.outAfter_eq N)
+
 theorem echo_noPanic : (echoV (α := α)).NoPanic := by
   refine ⟨⟨none, rfl⟩, fun xs _ => ?_⟩
   have : ∀ (s : Option α) (ys : List α), ∃ os, (echoV (α := α)).trace s ys = .ok os := by
